@@ -58,6 +58,19 @@ def adversarial(rnd):
         add(f"x=[1]; i=0; while i<{n} {{ x.push(i); i=i+1 }}; x.len()", "push-loop", "any")
     add("a=[1]; i=0; while i<20 { a=a+a; i=i+1 }; a.len()", "array-doubling", "any")
     add("[1,2,3]*200", "repeat", "any")
+    # container capacity 512: a request beyond it is an error — also when the 64-bit product len*times wraps round to a small number
+    M = 1 << 64
+    for ln in (3, 4, 5, 6, 7, 9, 11, 100, 500):
+        lit = "[" + ",".join(["1"] * ln) + "]"
+        for t in (-(-M // ln), -(-M // ln) + 1, (M + 511) // ln, 512 // ln + 1, (1 << 62) + 1):
+            if 0 < t < (1 << 63) and ln * t > 512:
+                add(f"{lit} * {t}", "repeat-over-capacity", "capacity")
+                add(f"{t} * {lit}", "repeat-over-capacity", "capacity")
+    for s_ in ("[1] * 513", "[1,2] * 9223372036854775807", "x=[1..300]; x + x", "x=[1..400]; y = x * 2; y.len()", "[0..9223372036854775807]",
+               "[(0-9223372036854775807)..9223372036854775807]", "[1..513]", "[513..1]", "[(0-300)..300]"):
+        add(s_, "over-capacity", "capacity")
+    for s_, v in (("[1] * 512", None), ("([1,2,3] * 170).len()", "510"), ("x=[1..256]; (x + x).len()", "512"), ("[1..512].len()", "512")):
+        add(s_, "at-capacity", ("value", v) if v else "any")
     for big in ("9223372036854775807", "99999999", "30001", "29000"):
         add(f"{big}d6", "huge-times", "any")
         add(f"b{big}", "huge-coc", "any")
@@ -213,6 +226,10 @@ def run(res, tier, seed):
         exec_ms = row["ms"] - row.get("parse_ms", 0)
         if exec_ms > (3000 if L == 50 else 20000):
             res.violation(dict(desc, what=f"execution took {exec_ms} ms under OpCountLimit={L}", ops=row["ops"]))
+            found += 1
+        if exp == "capacity" and row.get("ok"):
+            res.violation(dict(desc, what="a container beyond the 512-element capacity was requested and the program returned a value instead of an error",
+                               value=row.get("str")))
             found += 1
         if exp == "budget" and row.get("ok"):
             res.violation(dict(desc, what="an unbounded computation returned a value under a budget", value=row.get("str")))
